@@ -38,7 +38,7 @@ func (c *c20Case) request() *Request {
 		rq.Sack.Permit = false
 	case "no-options":
 		rq.Sack.Permit, rq.Sack.TS, rq.Sack.Bare = false, false, true
-	case "plain-ack", "plain-ack-empty", "plain-ack-ts":
+	case "plain-ack", "plain-ack-empty", "plain-ack-ts", "plain-ack-half", "plain-ack-odd":
 		destKind = c.Capability
 		rq.Sack.TS = c.Capability == "plain-ack-ts"
 	case "closed":
@@ -218,11 +218,11 @@ func checkC20(t *testing.T, c *c20Case, rec *Recorder) []Diff {
 }
 
 var c20Methods = []string{"", "syn", "sack", "prefer_sack", "fin"}
-var c20Caps = []string{"ok-ts", "ok", "no-permit", "no-options", "plain-ack", "plain-ack-empty", "plain-ack-ts", "closed", "no-synack"}
+var c20Caps = []string{"ok-ts", "ok", "no-permit", "no-options", "plain-ack", "plain-ack-empty", "plain-ack-ts", "plain-ack-half", "plain-ack-odd", "closed", "no-synack"}
 var c20Faults = []string{"", "filter1", "filter2", "send", "read", "srcfactory", "sinkfactory"}
 
 func TestC20Table(t *testing.T) {
-	rec := NewRecorder("C20", "C20Table", "full table: method {\"\", syn, sack, prefer_sack, unknown} x target capability {SACK-permitted with/without timestamps, no SACK-permitted, a SYN-ACK without any option, ACKs lacking SACK blocks (no option / SACK option with zero blocks / timestamp option only), port closed (real ECONNREFUSED on loopback), handshake never captured} x injected non-capability failure {none, first filter, second filter, send, read, source factory, sink factory} x e2e probes {0, 2 (only without injected failure)} x 2 TTL ranges, through RunTraceroute with a real loopback listener; oracle: policy table over probe kinds on the wire, accepted connections and the error chain; exhaustive over the table; non-trivial = method sack/prefer_sack with a non-happy capability or an injected failure")
+	rec := NewRecorder("C20", "C20Table", "full table: method {\"\", syn, sack, prefer_sack, unknown} x target capability {SACK-permitted with/without timestamps, no SACK-permitted, a SYN-ACK without any option, ACKs lacking SACK blocks (no option / SACK option with zero blocks / timestamp option only / SACK option too short for one block: a lone left edge, three bytes), port closed (real ECONNREFUSED on loopback), handshake never captured} x injected non-capability failure {none, first filter, second filter, send, read, source factory, sink factory} x e2e probes {0, 2 (only without injected failure)} x 2 TTL ranges, through RunTraceroute with a real loopback listener; oracle: policy table over probe kinds on the wire, accepted connections and the error chain; exhaustive over the table; non-trivial = method sack/prefer_sack with a non-happy capability or an injected failure")
 	rec.Exhaustive = true
 	RunCases(t, rec, func(yield func(*c20Case) bool) {
 		for _, m := range c20Methods {
